@@ -214,9 +214,13 @@ type op struct {
 	kind string
 	name iname
 	a    []uint64 // numeric arguments
+	text string   // rep: the batch "name=f:c,f:c;name=-;..."
 }
 
 func (o op) String() string {
+	if o.kind == "rep" {
+		return "rep " + o.text
+	}
 	var sb strings.Builder
 	sb.WriteString(o.kind)
 	if o.kind != "cleanup" {
@@ -241,6 +245,10 @@ type tcase struct {
 
 func parseOp(fields []string) op {
 	o := op{kind: fields[0]}
+	if o.kind == "rep" && len(fields) > 1 {
+		o.text = fields[1]
+		return o
+	}
 	rest := fields[1:]
 	if o.kind != "cleanup" && len(rest) > 0 {
 		o.name = parseIName(rest[0])
@@ -489,11 +497,29 @@ func applyFib(f table.FibStrategy, o op) {
 		f.SetStrategyEnc(n, stratName(int(o.a[0])))
 	case "uns":
 		f.UnSetStrategyEnc(n)
+	case "rep":
+		var updates []table.FibNextHopsUpdate
+		for _, item := range strings.Split(o.text, ";") {
+			kv := strings.SplitN(item, "=", 2)
+			u := table.FibNextHopsUpdate{Name: parseIName(kv[0]).enc()}
+			if len(kv) == 2 && kv[1] != "-" {
+				for _, h := range strings.Split(kv[1], ",") {
+					fc := strings.SplitN(h, ":", 2)
+					face, _ := strconv.ParseUint(fc[0], 10, 64)
+					cost, _ := strconv.ParseUint(fc[1], 10, 64)
+					u.NextHops = append(u.NextHops, table.FibNextHopEntry{Nexthop: face, Cost: cost})
+				}
+			}
+			updates = append(updates, u)
+		}
+		f.ReplaceNextHopsEnc(updates)
 	}
 }
 
 func applyRib(o op) {
 	switch o.kind {
+	case "sets", "uns": // strategy choice made directly on the FIB the RIB writes to
+		applyFib(table.FibStrategyTable, o)
 	case "reg":
 		table.Rib.AddEncRoute(o.name.enc(), &table.Route{FaceID: curFaces.id(o.a[0]), Origin: o.a[1], Cost: o.a[2], Flags: o.a[3]})
 	case "unreg":
@@ -549,6 +575,11 @@ func runCase(w *bufio.Writer, c *tcase) {
 	}
 	for _, o := range c.ops {
 		addHash(o.name)
+		if o.kind == "rep" {
+			for _, item := range strings.Split(o.text, ";") {
+				addHash(parseIName(strings.SplitN(item, "=", 2)[0]))
+			}
+		}
 	}
 	var ctxs []*obsCtx
 	if c.kind == "fib" {
@@ -744,19 +775,35 @@ func (g *gen) fibCase(id string, m int) *tcase {
 		}
 		face := uint64(1 + g.r.Intn(4))
 		switch k := g.r.Intn(100); {
+		case k < 8: // a batch: several prefixes, an emptied one before others
+			var items []string
+			nb := 1 + g.r.Intn(4)
+			for j := 0; j < nb; j++ {
+				bn := pfx[g.r.Intn(len(pfx))]
+				hops := "-"
+				if nh := g.r.Intn(4); nh > 0 && !(j == 0 && nb > 1 && g.r.Intn(2) == 0) {
+					var hs []string
+					for _, fperm := range g.r.Perm(4)[:nh] {
+						hs = append(hs, fmt.Sprintf("%d:%d", fperm+1, g.pick(costs)))
+					}
+					hops = strings.Join(hs, ",")
+				}
+				items = append(items, bn.String()+"="+hops)
+			}
+			c.ops = append(c.ops, op{kind: "rep", text: strings.Join(items, ";")})
 		case k < 35:
-			c.ops = append(c.ops, op{"ins", n, []uint64{face, g.pick(costs)}})
+			c.ops = append(c.ops, op{kind: "ins", name: n, a: []uint64{face, g.pick(costs)}})
 		case k < 55:
-			c.ops = append(c.ops, op{"rem", n, []uint64{face}})
+			c.ops = append(c.ops, op{kind: "rem", name: n, a: []uint64{face}})
 		case k < 65:
-			c.ops = append(c.ops, op{"clr", n, nil})
+			c.ops = append(c.ops, op{kind: "clr", name: n, a: nil})
 		case k < 82:
-			c.ops = append(c.ops, op{"sets", n, []uint64{uint64(g.r.Intn(4))}})
+			c.ops = append(c.ops, op{kind: "sets", name: n, a: []uint64{uint64(g.r.Intn(4))}})
 		default:
 			if len(n) == 0 && !unsetRoot {
 				continue
 			}
-			c.ops = append(c.ops, op{"uns", n, nil})
+			c.ops = append(c.ops, op{kind: "uns", name: n, a: nil})
 		}
 	}
 	return c
@@ -775,8 +822,9 @@ func (g *gen) ribCase(id string, m int, impl string) *tcase {
 		face, origin uint64
 	}
 	var live []reg
+	var stratNames []iname
 	add := func(n iname, face, origin, cost, flags uint64) {
-		c.ops = append(c.ops, op{"reg", n, []uint64{face, origin, cost, flags}})
+		c.ops = append(c.ops, op{kind: "reg", name: n, a: []uint64{face, origin, cost, flags}})
 		live = append(live, reg{n, face, origin})
 	}
 	// one history in three starts from a nested chain: child-inherit routes above, a CAPTURE-ONLY (flags = 2) or other
@@ -802,7 +850,7 @@ func (g *gen) ribCase(id string, m int, impl string) *tcase {
 			if g.r.Intn(2) == 0 {
 				add(mid, 4, 65, g.pick(costs), 1)
 			}
-			c.ops = append(c.ops, op{"unreg", mid, []uint64{2, 0}})
+			c.ops = append(c.ops, op{kind: "unreg", name: mid, a: []uint64{2, 0}})
 		}
 	}
 	nops := 6 + g.r.Intn(35)
@@ -810,6 +858,21 @@ func (g *gen) ribCase(id string, m int, impl string) *tcase {
 		n := pfx[g.r.Intn(len(pfx))]
 		face := uint64(1 + g.r.Intn(4))
 		origin := g.pick(origins)
+		if len(live) > 0 && g.r.Intn(8) == 0 {
+			// strategy choice on a (mostly routeless) prefix below a routed one; it must not change any route lookup
+			b := live[g.r.Intn(len(live))].n
+			sn := append(append(iname{}, b...), 1+g.r.Intn(3))
+			if g.r.Intn(3) == 0 {
+				sn = append(sn, 1+g.r.Intn(2))
+			}
+			if g.r.Intn(2) == 0 {
+				c.ops = append(c.ops, op{kind: "sets", name: sn, a: []uint64{uint64(g.r.Intn(4))}})
+				stratNames = append(stratNames, sn)
+			} else if len(stratNames) > 0 {
+				c.ops = append(c.ops, op{kind: "uns", name: stratNames[g.r.Intn(len(stratNames))], a: nil})
+			}
+			continue
+		}
 		switch k := g.r.Intn(100); {
 		case k < 50:
 			add(n, face, origin, g.pick(costs), uint64(g.r.Intn(4)))
@@ -818,9 +881,9 @@ func (g *gen) ribCase(id string, m int, impl string) *tcase {
 				r := live[g.r.Intn(len(live))]
 				n, face, origin = r.n, r.face, r.origin
 			}
-			c.ops = append(c.ops, op{"unreg", n, []uint64{face, origin}})
+			c.ops = append(c.ops, op{kind: "unreg", name: n, a: []uint64{face, origin}})
 		default:
-			c.ops = append(c.ops, op{"cleanup", nil, []uint64{face}})
+			c.ops = append(c.ops, op{kind: "cleanup", name: nil, a: []uint64{face}})
 		}
 	}
 	return c
